@@ -197,7 +197,27 @@ fn wrap_log(e: E, env: &mut Env, u: &mut Chooser) -> E {
         let t = simple_type(u);
         E::call("t", vec![E::Lit(V::Int(id)), leaf(u, &t, env)])
     };
-    match u.below(if env.host_calls { 14 } else { 1 }) {
+    match u.below(if env.host_calls { 18 } else { 1 }) {
+        14 => {
+            // receiver-style call of a variadic function: the receiver is evaluated once and is not an argument
+            let a = side(env, u);
+            let f = *u.pick(&["va", "max", "min"]);
+            E::Index(b(E::List(vec![e, E::mcall(a, f, vec![])])), b(E::Lit(V::Int(0))))
+        }
+        15 => {
+            let (a, c) = (side(env, u), side(env, u));
+            let f = *u.pick(&["va", "max", "min"]);
+            E::Index(b(E::List(vec![e, E::mcall(a, f, vec![c])])), b(E::Lit(V::Int(0))))
+        }
+        16 => {
+            // receiver-style call of a positional host function: receiver first, then the arguments
+            let a = side(env, u);
+            E::mcall(a, "h1", vec![e])
+        }
+        17 => {
+            let (a, c) = (side(env, u), side(env, u));
+            E::mcall(a, "h2", vec![e, c])
+        }
         0 | 1 | 2 => {
             env.next_id += 1;
             E::call("t", vec![E::Lit(V::Int(env.next_id)), e])
@@ -370,8 +390,20 @@ pub fn gen_e(u: &mut Chooser, t: &T, env: &mut Env, depth: usize) -> E {
             }
             17 | 18 | 19 => {
                 let m = *u.pick(&[Mac::All, Mac::Exists, Mac::ExistsOne, Mac::ExistsOneCamel]);
-                let et = simple_type(u);
-                let range = gen_e(u, &T::List(Box::new(et.clone())), env, d);
+                let et = if u.chance(1, 5) { gen_key_type(u) } else { simple_type(u) };
+                // one in five ranges over the keys of a map
+                let range = if u.chance(1, 5) {
+                    let kt = gen_key_type(u);
+                    let vt = simple_type(u);
+                    let r = gen_e(u, &T::Map(Box::new(kt.clone()), Box::new(vt)), env, d);
+                    let var = u.pick(&env.binders).to_string();
+                    env.vars.push((var.clone(), kt));
+                    let body = gen_e(u, &T::Bool, env, d);
+                    env.vars.pop();
+                    return wrap_log(E::Macro(m, b(r), var, vec![body]), env, u);
+                } else {
+                    gen_e(u, &T::List(Box::new(et.clone())), env, d)
+                };
                 let var = u.pick(&env.binders).to_string();
                 env.vars.push((var.clone(), et));
                 let body = gen_e(u, &T::Bool, env, d);
@@ -516,10 +548,17 @@ pub fn gen_e(u: &mut Chooser, t: &T, env: &mut Env, depth: usize) -> E {
                 E::Macro(Mac::Map, b(range), var, body)
             }
             8 => {
-                let range = gen_e(u, t, env, d);
+                let key_type = matches!(**et, T::Str | T::Int | T::UInt | T::Bool);
+                let range = if key_type && u.chance(1, 4) {
+                    // filter over the keys of a map
+                    let vt = simple_type(u);
+                    gen_e(u, &T::Map(et.clone(), Box::new(vt)), env, d)
+                } else {
+                    gen_e(u, t, env, d)
+                };
                 let var = u.pick(&env.binders).to_string();
                 env.vars.push((var.clone(), (**et).clone()));
-                let body = gen_e(u, &T::Bool, env, d);
+                let body = if u.chance(1, 6) { E::Lit(V::Bool(u.flip())) } else { gen_e(u, &T::Bool, env, d) };
                 env.vars.pop();
                 E::Macro(Mac::Filter, b(range), var, vec![body])
             }
